@@ -314,12 +314,23 @@ func (m *Machine) deepEq(a, b Value, d int) *sym.Term {
 			return m.S.False()
 		}
 		r := m.S.True()
+		used := make([]bool, len(eb))
 		for _, e := range ea {
 			found := false
-			for _, f := range eb {
-				// keys are matched structurally (a cloned pointer key is a different pointer)
+			for j, f := range eb {
+				// keys are matched structurally (a cloned pointer key is a different pointer; a NaN key matches a
+				// NaN key); entries of b are matched at most once, and a key-equal entry whose value certainly
+				// differs is passed over while another candidate may follow (several NaN keys)
+				if used[j] {
+					continue
+				}
 				if m.Branch(m.deepEq(e.K, f.K, d+1)) {
-					r = m.S.And(r, m.deepEq(e.V, f.V, d+1))
+					v := m.deepEq(e.V, f.V, d+1)
+					if v.IsConst() && v.C == 0 {
+						continue
+					}
+					r = m.S.And(r, v)
+					used[j] = true
 					found = true
 					break
 				}
@@ -329,6 +340,9 @@ func (m *Machine) deepEq(a, b Value, d int) *sym.Term {
 			}
 		}
 		return r
+	case FloatV:
+		y, ok := b.(FloatV)
+		return m.S.Bool(ok && (x == y || (x != x && y != y)))
 	case IfaceV:
 		y, ok := b.(IfaceV)
 		if !ok {
